@@ -3,6 +3,7 @@ package cluster
 import (
 	"bytes"
 	"fmt"
+	"sync"
 	"testing"
 
 	"github.com/hashicorp/raft"
@@ -56,7 +57,9 @@ func mutate(l *raft.Log, field string, bit int, other *raft.Log) bool {
 		if len(l.Data) == 0 {
 			l.Data = append(l.Data, 0xEE)
 		} else {
-			l.Data[len(l.Data)-1] ^= 1 << (uint(bit) % 8)
+			d := append([]byte{}, l.Data...) // never write through: stores may share the backing array
+			d[len(d)-1] ^= 1 << (uint(bit) % 8)
+			l.Data = d
 		}
 	case "data-trunc":
 		if len(l.Data) == 0 {
@@ -171,17 +174,24 @@ func runC17(c ClusterCase) (res common.Result) {
 	s.mutIdx = idx
 	s.mutNode = target
 	effective := false
-	apply := func(l *raft.Log) {
-		var other *raft.Log
-		if m.Field == "swap" {
-			j := idx + 1
-			if j > hi {
-				j = idx - 1
-			}
-			if j >= lo && j <= hi && j != idx {
-				other, _ = ld.Told.Get(j)
+	// resolve the swap partner now: the mutation callbacks run on the verifier's
+	// goroutine and must not touch the harness's ground-truth maps
+	var other *raft.Log
+	if m.Field == "swap" {
+		j := idx + 1
+		if j > hi {
+			j = idx - 1
+		}
+		if j >= lo && j <= hi && j != idx {
+			if o, ok := ld.Told.Get(j); ok {
+				other = refmodel.CloneLog(o)
 			}
 		}
+	}
+	var effMu sync.Mutex
+	apply := func(l *raft.Log) {
+		effMu.Lock()
+		defer effMu.Unlock()
 		if l.Index == idx {
 			if mutate(l, m.Field, m.Bit, other) {
 				effective = true
